@@ -107,6 +107,12 @@ func (p *Program) VerifyFunction(id string) (res *FuncResult) {
 			for k, v := range bind {
 				b[k] = v
 			}
+			// "self" of an interface contract is the receiver seen as a value of the interface type
+			if im := p.ifaceMethod(iid); im != nil && len(fr.params) > 0 {
+				if it := p.ifaceType(iid); it != nil {
+					b["self"] = e.makeInterface(st, True, fr.params[0], it)
+				}
+			}
 			// positional mapping of interface parameter names
 			if im := p.ifaceMethod(iid); im != nil {
 				sig := im.Type().(*types.Signature)
@@ -174,11 +180,31 @@ func (p *Program) VerifyFunction(id string) (res *FuncResult) {
 			e.assume(True, t)
 		}
 	}
-	if fc != nil {
-		assumePre(fc, bind)
-	}
 	for i, ic := range inherited {
 		assumePre(ic, inheritBind[i])
+	}
+	if fc != nil && len(inherited) > 0 {
+		// behavioural subtyping: callers through the interface only establish the interface's precondition
+		for i, rq := range fc.Requires {
+			env := e.newEnv(nil, st)
+			env.bind = bind
+			t, err := env.evalBool(rq.E)
+			if err != nil {
+				continue
+			}
+			lbl := rq.Label
+			if lbl == "" {
+				lbl = fmt.Sprint(i + 1)
+			}
+			e.curPos = fn.Pos()
+			o := e.oblige("refine.pre", "refine.pre."+lbl, "own precondition must follow from the interface contract: "+rq.Text, True, t, rq)
+			if o != nil {
+				o.Props = rq.Props
+			}
+		}
+	}
+	if fc != nil {
+		assumePre(fc, bind)
 	}
 	e.old = st.clone()
 	if fc != nil && fc.Decreases != nil {
@@ -306,7 +332,10 @@ func (p *Program) VerifyFunction(id string) (res *FuncResult) {
 		}
 	}
 	// frame: objects that existed at entry are unchanged outside the assigns clause (semantic, per exit)
-	if fc != nil && (fc.HasAssign || fc.Pure) {
+	if fc != nil && fc.TrustFrame {
+		e.used["frame of "+fc.ID+" trusted (contract says trustframe)"] = true
+	}
+	if fc != nil && (fc.HasAssign || fc.Pure) && !fc.TrustFrame {
 		for k, x := range exits {
 			e.checkFrameAt(fn, fc, bind, k+1, x)
 		}
@@ -327,6 +356,21 @@ func (r *FuncResult) finish(e *Engine) {
 	}
 	sort.Strings(r.Used)
 	r.CErrors = append(r.CErrors, e.cerrors...)
+}
+
+func (p *Program) ifaceType(iid string) types.Type {
+	parts := strings.Split(iid, ".")
+	if len(parts) != 3 {
+		return nil
+	}
+	for _, tp := range p.pkgsByName[parts[0]] {
+		if tn, ok := tp.Scope().Lookup(parts[1]).(*types.TypeName); ok {
+			if _, ok := tn.Type().Underlying().(*types.Interface); ok {
+				return tn.Type()
+			}
+		}
+	}
+	return nil
 }
 
 func (p *Program) ifaceMethod(iid string) *types.Func {
@@ -464,7 +508,14 @@ func SolveAll(results []*FuncResult, opt SolveOptions) {
 				q := j.e.BuildQuery(j.o)
 				j.o.Query = q
 				name := sanitizeFile(j.o.ID)
-				r, all := Portfolio(q, opt.OutDir, name, opt.Timeout, opt.Both && j.o.Expect != "sat")
+				var r SolveResult
+				var all []SolveResult
+				if j.o.Expect == "sat" && !opt.Both {
+					// quick tier: cover queries on the quantifier-free part only
+					r = SolveResult{Status: "unknown"}
+				} else {
+					r, all = Portfolio(q, opt.OutDir, name, opt.Timeout, opt.Both && j.o.Expect != "sat")
+				}
 				if j.o.Expect == "sat" && r.Status != "sat" && r.Status != "unsat" {
 					// cover query inconclusive (quantifiers): retry on the quantifier-free part
 					q2 := j.e.buildQuery(j.o, true)
